@@ -755,8 +755,10 @@ func (f *STFS) Rename(oldname, newname string) error {
 		return os.ErrInvalid
 	}
 
-	// A directory can't be moved into its own subtree
-	if strings.HasPrefix(newname, strings.TrimSuffix(oldname, "/")+"/") {
+	// A directory can't be moved into its own subtree; compare the rooted spellings, as `a` and `/a` name the same entry
+	rootedOldname := filepath.Clean("/" + oldname)
+	rootedNewname := filepath.Clean("/" + newname)
+	if strings.HasPrefix(rootedNewname, strings.TrimSuffix(rootedOldname, "/")+"/") {
 		return os.ErrInvalid
 	}
 
